@@ -62,6 +62,14 @@ let handle (line : string) : string =
                           List.map (fun m -> Printf.sprintf "%s %s %s %d" (sh m.M.ms_id) (sh m.M.ms_file) (sh m.M.ms_payload) (if m.M.ms_baked then 1 else 0)) ms)
      | M.BErr _ -> "tasks err"
      | M.BPanic -> "tasks panic")
+  | "air" :: rest ->
+    (* air <kind|R>... : kinds 1..4 DKG steps, 9 signing, R = stop, reopen, replay *)
+    (* only the log length at a stop is observable on the implementation: other positions print "-" *)
+    let script = List.map (fun x -> if x = "R" then None else Some (M.N.to_nat (n_of_int (int_of_string x)))) rest in
+    let m0 = { M.m_seed = (); m_log = []; m_vol = [] } in
+    let outs = M.run_script m0 script in
+    "air " ^ String.concat " " (List.map2 (fun x (l, v) ->
+        if x = "R" then Printf.sprintf "%d/%d" (int_of_n (M.N.of_nat l)) (int_of_n (M.N.of_nat v)) else "-") rest outs)
   | "lag" :: rest ->
     (* lag x1 y1 x2 y2 ... : Lagrange combination at 0 *)
     let rec pairs l = match l with a :: b :: r -> (z_of_dec a, z_of_dec b) :: pairs r | _ -> [] in
